@@ -451,6 +451,19 @@ Section SimLazy.
       cbn. rewrite <- (Q1 _ _ E'), <- (R1 _ _ E). rewrite (L.lset_env F1 F2 F3). destruct (Nat.eqb_spec q p); [contradiction|reflexivity].
   Qed.
 
+  (* evaluateAll keeps the state conditions (whatever the registration order) *)
+  Theorem lazy_evalall_keeps fuel w e st w' :
+    LSC w -> LCOH w -> lookup (w_bevs w) e = Some ev -> nth_error (w_evps w) ev = Some st ->
+    step1 fn rtl fuel w (BevEvalAll e) = (w', None) -> LSC w' /\ LCOH w' /\ LFR w w'.
+  Proof.
+    intros HSC (s & HRel & HInv) He Hst H. cbn [step1] in H. rewrite He, Hst in H.
+    change (evalall_loop fuel ev (ep_registry st) w = (w', None)) in H.
+    destruct (sim_lloop (LORD w) fuel ev (ep_registry st) w s w' st HSC (fun _ => eq_refl) HRel Hst (fun rb Hi => Hi) H) as (SC' & FR' & Rel').
+    split; [exact SC'|]. split; [|exact FR'].
+    exists (L.eval_all F1 F2 F3 (LORD w) (regs_of w (ep_registry st)) s). split; [exact Rel'|].
+    apply (LInv_order_ext (LORD w)); [intros p0; apply LFR_LORD; exact FR'|apply L.eval_all_inv; exact HInv].
+  Qed.
+
   (* C06 on the executable model: one evaluateAll over bindings registered in dependency order *)
   Theorem lazy_evalall_consistent fuel w e st w' :
     LSC w -> LCOH w -> lookup (w_bevs w) e = Some ev -> nth_error (w_evps w) ev = Some st ->
